@@ -111,7 +111,7 @@ def setup(tier, seed):
         'jobs': jobs,
         'tolerant_jobs': True,
         'min_encoded': 80,
-        'budget_s': 1200 if tier == 'quick' else 3300,
+        'budget_s': 780 if tier == 'quick' else 3300,
         'explanation': 'every public indicator runs on n symbolic candles with the warm-up window configured to 6 (env.data.warmup_candles_num, read by '
                        'helpers.slice_candles): every field of the sequential result has n entries; for n <= 6 its last entry equals the non-sequential '
                        'result; for n > 6 the non-sequential result equals the sequential result on the trailing 6 candles (z3 equality, NaN pattern '
